@@ -34,7 +34,6 @@ import (
 	"github.com/bitcoin-sv/block-headers-service/transports/p2p/addrmgr"
 	"github.com/bitcoin-sv/block-headers-service/transports/p2p/peer"
 	"github.com/bitcoin-sv/block-headers-service/verifharness/lib"
-	"github.com/rs/zerolog"
 )
 
 const (
@@ -239,7 +238,7 @@ func (w *c18WireRig) exec(op string) (res string, badIndex bool, err error) {
 		rp.sp.Disconnect()
 		p2p.VerifDonePeer(w.pr.srv, w.pr.st, rp.sp)
 	case "ban":
-		nop := zerolog.Nop()
+		nop := lib.DiscardLog()
 		bp, err := peer.NewOutboundPeer(&peer.Config{Log: &nop, ChainParams: &chaincfg.MainNetParams}, net.JoinHostPort(w.pr.hostIPs[num(2)], "8333"))
 		if err != nil {
 			return res, false, err
